@@ -12,11 +12,28 @@ typedef double R;
 #include "ObjSense.inc"
 
 R* gp_max; R* gp_sum; R* gp_scratch; int g_scratch_n, g_scratch_used;
-int g_k, g_n; int v_st, g_sense; R* gp_a; R* gp_b; R* gp_x; R v_dlo, v_dup;
+int g_k, g_n; int v_st, g_sense;
+/* enumerator values for the loop invariants (the loop-contract side file cannot name C enumerators) */
+int K_FIXED, K_ON_LOWER, K_ON_UPPER, K_MINIMIZE; R v_dlo, v_dup, v_x;
 int g_cpa_calls, g_cpa_unscaled, g_cpa_args_ok, g_sync_calls;
+#ifdef WITH_SUMFACT
+#define SUMFACT && *sumviol >= *maxviol     /* the running sum dominates the maximum (IEEE addition is monotone) */
+#else
 #define SUMFACT
+#endif
+#ifdef R_IS_UF
+/* stubs/real_uf.h: binary +,- of R are uninterpreted functions (a generalisation of IEEE +,-) */
+double __CPROVER_uninterpreted_fsub(double, double);
+#define FSUB(a, b) __CPROVER_uninterpreted_fsub(a, b)
+#else
+#define FSUB(a, b) ((a) - (b))
+#endif
 #define NOTNAN(x) ((x) == (x))
 #define FINITE(x) (NOTNAN(x) && (x) != (1.0 / 0.0) && (x) != -(1.0 / 0.0))
+
+/* What every caller may rely on about the out-parameters of a violation getter (proved on the real bodies in the
+ * INST_VIOL instances, used as the callee contract of _verifySolutionReal): the maximum is >= 0, hence not NaN. */
+#define VIOL_OUT_POST(ret, maxviol, sumviol) ((ret) ==> (*(maxviol) >= 0.0))
 
 #ifdef INST_VIOL
 /* which test decides success */
@@ -56,21 +73,30 @@ __CPROVER_requires(__CPROVER_is_fresh(maxviol, sizeof(R)) && __CPROVER_is_fresh(
 __CPROVER_requires(objsense == OBJSENSE_MINIMIZE || objsense == OBJSENSE_MAXIMIZE)
 __CPROVER_requires(0 <= g_k && g_k < n && g_sense == objsense)
 __CPROVER_requires(v_st == (isRealLPLoaded ? st_solver[g_k] : st_stored[g_k]))
-/* what the code assumes about its floating-point inputs: bounds/sides may be +-inf but not NaN, solution values are
-   finite (inf - inf would be NaN and every comparison with NaN is false) */
-__CPROVER_requires(NOTNAN(a[g_k]) && NOTNAN(b[g_k]) && FINITE(x[g_k]))
-__CPROVER_assigns(gp_max, gp_sum, gp_scratch, g_scratch_n, g_scratch_used, g_cpa_calls, g_cpa_unscaled, g_cpa_args_ok, g_sync_calls, gp_a, gp_b, gp_x, v_dlo, v_dup)
+/* what the code assumes about its floating-point inputs (every comparison with NaN is false, so a NaN violation
+   would go unnoticed): the two differences are not NaN - for IEEE subtraction that is the case whenever the
+   bounds/sides are not NaN (they may be +-inf) and the solution value is finite; multipliers are not NaN */
+#if defined(KIND_BOUND)
+__CPROVER_requires(NOTNAN(FSUB(a[g_k], x[g_k])) && NOTNAN(FSUB(x[g_k], b[g_k])))
+#elif defined(KIND_ROW)
+/* same condition on the activity, supplied by the computePrimalActivity stub (it produces the activity) */
+#else
+__CPROVER_requires(NOTNAN(x[g_k]))
+#endif
+__CPROVER_assigns(gp_max, gp_sum, gp_scratch, g_scratch_n, g_scratch_used, g_cpa_calls, g_cpa_unscaled, g_cpa_args_ok, g_sync_calls, v_dlo, v_dup, v_x)
 __CPROVER_assigns(__CPROVER_object_whole(scratch))          /* the function's own local vector */
 __CPROVER_assigns(SUCCESS: *maxviol, *sumviol)                /* frame: on failure nothing is written */
 __CPROVER_ensures((__CPROVER_return_value != 0) == (SUCCESS))
-__CPROVER_ensures(__CPROVER_return_value ==> (*maxviol >= 0.0 SUMFACT))
+__CPROVER_ensures(VIOL_OUT_POST(__CPROVER_return_value, maxviol, sumviol))
+__CPROVER_ensures(__CPROVER_return_value ==> (1 SUMFACT))
 #if defined(KIND_BOUND) || defined(KIND_ROW)
 /* v_dlo, v_dup are set by the wrapper to exactly these two differences (second clause), so that the first clause reads
    lower[g] - x[g] <= maxviol && x[g] - upper[g] <= maxviol */
 __CPROVER_ensures(__CPROVER_return_value ==> (v_dlo <= *maxviol && v_dup <= *maxviol))
-__CPROVER_ensures(__CPROVER_return_value ==> (v_dlo == a[g_k] - VAL && v_dup == VAL - b[g_k]))
+__CPROVER_ensures(__CPROVER_return_value ==> (v_dlo == FSUB(a[g_k], VAL) && v_dup == FSUB(VAL, b[g_k])))
 #else
 __CPROVER_ensures(__CPROVER_return_value ==> SIGN_OK(v_st, objsense, x[g_k], *maxviol))
+__CPROVER_ensures(v_x == x[g_k])     /* ghost copy used by the loop invariant */
 #endif
 #ifdef KIND_ROW
 /* the activity is the one computed for the stored primal vector, in the unscaled space */
@@ -84,8 +110,113 @@ void h_viol(void)
    R* a; R* b; R* x; R* scratch; const int* st_solver; const int* st_stored; int n;
    int hasSolReal, realFeas, hasSolRational, ratFeas, hasBasis, isRealLPLoaded, objsense; R* maxviol; R* sumviol;
    g_k = nondet_int(); g_n = nondet_int(); v_st = nondet_int(); g_sense = nondet_int();
+   K_FIXED = FIXED; K_ON_LOWER = ON_LOWER; K_ON_UPPER = ON_UPPER; K_MINIMIZE = OBJSENSE_MINIMIZE;
    w_viol(a, b, x, scratch, st_solver, st_stored, n, hasSolReal, realFeas, hasSolRational, ratFeas,
           hasBasis, isRealLPLoaded, objsense, maxviol, sumviol);
+   CANARY();
+}
+#endif
+
+#ifdef INST_VERIFY
+#include <limits.h>
+/* ---- callee contracts: the four getters as seen by _verifySolutionReal --------------------------------------
+ * g_ok_X  : whether getter X succeeds in the current state (isPrimalFeasible() resp. hasBasis()), arbitrary;
+ * on failure nothing is written (conditional frame, as proved); on success VIOL_OUT_POST holds;
+ * g_out_X : ghost copy of the maximum it returned; g_calls_X: number of calls. */
+int g_ok_bound, g_ok_row, g_ok_dual, g_ok_redcost;
+R g_out_bound, g_out_row, g_out_dual, g_out_redcost;
+int g_calls_bound, g_calls_row, g_calls_dual, g_calls_redcost;
+int g_resolve_calls, g_resolve_arg, g_unscale_before_resolve, g_scaledflag_at_resolve, g_unscaleLP_calls;
+#define GETTER(NAME, X) \
+int NAME(double* maxviol, double* sumviol) \
+__CPROVER_requires(__CPROVER_w_ok(maxviol, sizeof(double)) && __CPROVER_w_ok(sumviol, sizeof(double))) \
+__CPROVER_assigns(g_out_##X, g_calls_##X) \
+__CPROVER_assigns(g_ok_##X: *maxviol, *sumviol) \
+__CPROVER_ensures((__CPROVER_return_value != 0) == (g_ok_##X != 0)) \
+__CPROVER_ensures(VIOL_OUT_POST(__CPROVER_return_value, maxviol, sumviol)) \
+__CPROVER_ensures(g_out_##X == *maxviol && g_calls_##X == __CPROVER_old(g_calls_##X) + 1) \
+;
+GETTER(c_getBoundViolation, bound)
+GETTER(c_getRowViolation, row)
+GETTER(c_getDualViolation, dual)
+GETTER(c_getRedCostViolation, redcost)
+
+/* the maximum _verifySolutionReal compares: what the getter returned, or the initial 0 if it failed */
+#define MEAS(X) (g_ok_##X ? g_out_##X : 0.0)
+#define VIOLATED (MEAS(bound) >= feastol || MEAS(row) >= feastol || MEAS(dual) >= opttol || MEAS(redcost) >= opttol)
+
+void w_verify(double feastol, double opttol, int* isRealLPScaled, int* unscaleCalls)
+__CPROVER_requires(__CPROVER_is_fresh(isRealLPScaled, sizeof(int)) && __CPROVER_is_fresh(unscaleCalls, sizeof(int)))
+__CPROVER_requires((*isRealLPScaled == 0 || *isRealLPScaled == 1) && 0 <= *unscaleCalls && *unscaleCalls < INT_MAX)
+/* tolerances are not NaN (a NaN tolerance makes every comparison false and switches the net off; C15's concern) */
+__CPROVER_requires(NOTNAN(feastol) && NOTNAN(opttol))
+__CPROVER_requires(g_calls_bound == 0 && g_calls_row == 0 && g_calls_dual == 0 && g_calls_redcost == 0)
+__CPROVER_assigns(*isRealLPScaled, *unscaleCalls, g_out_bound, g_out_row, g_out_dual, g_out_redcost,
+                  g_calls_bound, g_calls_row, g_calls_dual, g_calls_redcost,
+                  g_resolve_calls, g_resolve_arg, g_unscale_before_resolve, g_scaledflag_at_resolve, g_unscaleLP_calls)
+/* every getter is consulted exactly once */
+__CPROVER_ensures(g_calls_bound == 1 && g_calls_row == 1 && g_calls_dual == 1 && g_calls_redcost == 1)
+/* PROPERTY LINK: returning without a re-solve means every maximum that was measured is strictly below its tolerance
+   (feasibility tolerance for bounds and rows, optimality tolerance for duals and reduced costs) */
+__CPROVER_ensures(g_resolve_calls == 0 ==> ((g_ok_bound ==> g_out_bound < feastol) && (g_ok_row ==> g_out_row < feastol)
+                                           && (g_ok_dual ==> g_out_dual < opttol) && (g_ok_redcost ==> g_out_redcost < opttol)))
+/* exact control flow: one re-solve iff some maximum reaches its tolerance; never more than one */
+__CPROVER_ensures((g_resolve_calls == 1) == (VIOLATED) && (g_resolve_calls == 0 || g_resolve_calls == 1))
+/* the re-solve runs without presolving, on an unscaled LP: a persistently scaled LP is unscaled first, exactly once */
+__CPROVER_ensures(g_resolve_calls == 1 ==> (g_resolve_arg == 0 && g_scaledflag_at_resolve == 0 && *isRealLPScaled == 0
+                  && g_unscaleLP_calls == __CPROVER_old(*isRealLPScaled) && g_unscale_before_resolve == g_unscaleLP_calls
+                  && *unscaleCalls == __CPROVER_old(*unscaleCalls) + __CPROVER_old(*isRealLPScaled)))
+__CPROVER_ensures(g_resolve_calls == 0 ==> (g_unscaleLP_calls == 0 && *isRealLPScaled == __CPROVER_old(*isRealLPScaled)
+                  && *unscaleCalls == __CPROVER_old(*unscaleCalls)))
+;
+void h_verify(void)
+{
+   double feastol, opttol; int* isRealLPScaled; int* unscaleCalls;
+   g_ok_bound = nondet_int(); g_ok_row = nondet_int(); g_ok_dual = nondet_int(); g_ok_redcost = nondet_int();
+   g_calls_bound = 0; g_calls_row = 0; g_calls_dual = 0; g_calls_redcost = 0;
+   w_verify(feastol, opttol, isRealLPScaled, unscaleCalls);
+   CANARY();
+}
+#endif
+
+#ifdef INST_UNSCALE
+int g_cnt[7]; int g_lp_ok[7]; int g_vec[7]; const void* gp_lp; const void* gp_sol[7];
+/* every one of primal / slacks / dual / reduced costs is unscaled exactly once, with the LP of the call and with its
+ * own vector; the ray / the Farkas proof exactly when present */
+#define ONCE(k) (g_cnt[k] == 1 && g_lp_ok[k] == 1 && g_vec[k] == (k))
+void w_unscale(int hasPrimalRay, int hasDualFarkas, int persistent)
+__CPROVER_assigns(__CPROVER_object_whole(g_cnt), __CPROVER_object_whole(g_lp_ok), __CPROVER_object_whole(g_vec), gp_lp, __CPROVER_object_whole(gp_sol))
+__CPROVER_ensures(ONCE(1) && ONCE(2) && ONCE(3) && ONCE(4))
+__CPROVER_ensures(hasPrimalRay ? ONCE(5) : g_cnt[5] == 0)
+__CPROVER_ensures(hasDualFarkas ? ONCE(6) : g_cnt[6] == 0)
+;
+void h_unscale(void)
+{
+   int hasPrimalRay, hasDualFarkas, persistent;
+   w_unscale(hasPrimalRay, hasDualFarkas, persistent);
+   CANARY();
+}
+#endif
+
+#ifdef INST_OBJVAL
+#define Status SolverStatus_c
+#include "SolverStatus.inc"
+#undef Status
+/* status -> value table of objValueReal(): +-infinity parameter by sense for UNBOUNDED / INFEASIBLE, the stored
+ * objective if any solution exists (after synchronising the real solution), 0 otherwise */
+double w_objval(int status, double infty, int objsense, int hasSolReal, int hasSolRational, double objVal)
+__CPROVER_requires(objsense == OBJSENSE_MINIMIZE || objsense == OBJSENSE_MAXIMIZE)
+__CPROVER_requires(NOTNAN(infty) && NOTNAN(objVal))
+__CPROVER_assigns(g_sync_calls)
+__CPROVER_ensures(status == UNBOUNDED ==> __CPROVER_return_value == (objsense == OBJSENSE_MAXIMIZE ? infty : -infty))
+__CPROVER_ensures(status == INFEASIBLE ==> __CPROVER_return_value == (objsense == OBJSENSE_MAXIMIZE ? -infty : infty))
+__CPROVER_ensures((status != UNBOUNDED && status != INFEASIBLE && (hasSolReal || hasSolRational)) ==> (__CPROVER_return_value == objVal && g_sync_calls == 1))
+__CPROVER_ensures((status != UNBOUNDED && status != INFEASIBLE && !hasSolReal && !hasSolRational) ==> __CPROVER_return_value == 0.0)
+;
+void h_objval(void)
+{
+   int status, objsense, hasSolReal, hasSolRational; double infty, objVal;
+   w_objval(status, infty, objsense, hasSolReal, hasSolRational, objVal);
    CANARY();
 }
 #endif
